@@ -42,6 +42,9 @@ RULE = (
     "MDA, parallel stages, listing order, optional inputs and whether cycle groups / self-coupled nodes are handed to MDAChain "
     "wrapped in one MDOChain node, and whether the setting sub_coupling_structures is given (one CouplingStructure per inner "
     "MDA in sequence order); reference = numpy.linalg.solve of (I-B) y = A ext + c. "
+    "Duplicated output names: Hypothesis draws 2-4 affine members writing 1-2 of three names from a shared input, a listing order "
+    "and a consumer; MDOParallelChain, MDOChain([MDOParallelChain, consumer]) and MDOChain(members, consumer) must return the value "
+    "of the member listed LAST for every name (non-trivial: the writers of a name disagree). "
     "Non-trivial = (graph, listing order) with an SCC of size >=2 and >=2 stages (composition: additionally "
     "executed through MDAChain); distinct = structural hash of (n, edges, options, order)."
 )
@@ -55,6 +58,12 @@ ASSUMPTIONS = [
     "composition: coupling matrix scaled to infinity norm q<=0.3, inner MDA tolerance 1e-12 without residual scaling, "
     "max_mda_iter=200; fixed-point outputs are compared with the direct solve within 1e-9*(1+|y|) "
     "(error <= q/(1-q) * residual), acyclic chains within 1e-12*(1+|y|)",
+    "get_output_couplings / get_input_couplings: strong=True must be the exact strong set restricted to the discipline; "
+    "strong=False must be the discipline's names among the structure's own all_couplings (bounded as above) and contain the strong ones",
+    "MDAChain(initialize_defaults=True): coupling inputs are left without default only as far as the documented greedy initialisation "
+    "(own simulation) can compute them; never on wrapped MDOChain nodes",
+    "members of a parallel chain writing the same name: the priority of the last listed member is read from MDOParallelChain._execute's "
+    "comment and from the sequential MDOChain semantics",
     "n >= 10 nodes are not explored",
 ]
 
@@ -139,6 +148,25 @@ def check_structure(ctx, cs, listed, node_of, real: Realisation, order):
         ctx.check(low <= set(val) <= up, attr,
                   f"{attr}={sorted(val)} but must contain {sorted(low)} and be contained in {sorted(up)}", **info)
         exact = exact and low == up
+    # (5b) per-discipline accessors: strong=True is the exact strong set restricted to the discipline; strong=False must be
+    # the discipline's names among the structure's own all_couplings (itself bounded above), so that the accessors agree
+    # with each other whichever reading of a self-only variable is taken, and it contains the strong ones
+    strong_exact = real.strong_couplings_bounds()[0]
+    all_got = set(cs.all_couplings)
+    for d in listed:
+        node = node_of[id(d)]
+        for kind, names in (("output", real.outs[node]), ("input", real.ins[node])):
+            getter = cs.get_output_couplings if kind == "output" else cs.get_input_couplings
+            got_strong = list(getter(d, strong=True))
+            got_all = list(getter(d, strong=False))
+            ref_strong = sorted(set(names) & strong_exact)
+            ref_all = sorted(set(names) & all_got)
+            ctx.check(sorted(got_strong) == ref_strong and len(got_strong) == len(set(got_strong)), f"get_{kind}_couplings",
+                      f"node {node}: get_{kind}_couplings(strong=True)={got_strong}, reference {ref_strong}", **info)
+            ctx.check(sorted(got_all) == ref_all and len(got_all) == len(set(got_all)), f"get_{kind}_couplings",
+                      f"node {node}: get_{kind}_couplings(strong=False)={got_all}, but its names among all_couplings are {ref_all}", **info)
+            ctx.check(set(got_strong) <= set(got_all), f"get_{kind}_couplings",
+                      f"node {node}: strong {kind} couplings {got_strong} are not among the non-strong ones {got_all}", **info)
     return len(seq), exact
 
 
@@ -298,9 +326,20 @@ def random_graphs(draw):
 @st.composite
 def systems(draw):
     n = draw(st.integers(2, 6))
-    kind = draw(st.sampled_from(["any", "any", "acyclic", "blocks", "blocks"]))
+    kind = draw(st.sampled_from(["any", "any", "acyclic", "blocks", "blocks", "fed_cycle"]))
     edges = []
-    if kind == "acyclic":
+    if kind == "fed_cycle" and n < 3:
+        kind = "any"
+    if kind == "fed_cycle":
+        # a weakly coupled source feeding a ring (and possibly a downstream discipline), relabelled
+        label = draw(st.permutations(list(range(n))))
+        ring = list(range(1, n if n == 3 else n - 1))
+        for k, u in enumerate(ring):
+            edges.append([label[u], label[ring[(k + 1) % len(ring)]], draw(st.integers(1, 3))])
+        edges.append([label[0], label[ring[draw(st.integers(0, len(ring) - 1))]], 1])
+        if n > 3:
+            edges.append([label[ring[0]], label[n - 1], 1])
+    elif kind == "acyclic":
         topo = draw(st.permutations(list(range(n))))
         for a in range(n):
             for b in range(a + 1, n):
@@ -325,6 +364,8 @@ def systems(draw):
                 if draw(st.integers(0, 99)) < (pct if i != j else pct // 2):
                     edges.append([i, j, draw(st.integers(1, 3))])
     nx = draw(st.integers(1, 2))
+    # one case in three (always for 'fed_cycle'): MDAChain has to initialise missing default values itself
+    init_mode = kind == "fed_cycle" or draw(st.integers(0, 2)) == 0
     return {
         "n": n, "edges": edges,
         "two_out": draw(st.one_of(st.just([False] * n), st.lists(st.booleans(), min_size=n, max_size=n))),
@@ -339,13 +380,16 @@ def systems(draw):
         "p": draw(st.integers(-4, 4)),
         "inner": draw(st.sampled_from(["MDAJacobi", "MDAGaussSeidel"])),
         "parallel": draw(st.booleans()),
-        "init_defaults": draw(st.booleans()),
+        "init_defaults": True if init_mode else draw(st.booleans()),
         # inputs that are optional (non-required, with a default value) in the consumer's grammar
         "opt": draw(st.one_of(st.just([]), st.lists(st.integers(0, 1), min_size=1, max_size=7))),
+        # with initialize_defaults: coupling inputs (flags cycled over the (consumer, coupling input) pairs) that get NO default
+        # value; MDAChain has to compute them with its initialization chain
+        "no_default": draw(st.lists(st.sampled_from([1, 1, 0]), min_size=1, max_size=6)) if init_mode else [],
         # give MDAChain the non-default setting sub_coupling_structures: one CouplingStructure per inner MDA, in sequence order
         "sub_cs": draw(st.booleans()),
         # cycle groups / self-coupled nodes (index modulo their number) handed to MDAChain as ONE MDOChain node
-        "wrap": draw(st.one_of(st.just([]), st.lists(st.integers(0, 3), min_size=1, max_size=2, unique=True))),
+        "wrap": [] if init_mode else draw(st.one_of(st.just([]), st.lists(st.integers(0, 3), min_size=1, max_size=2, unique=True))),
     }
 
 
@@ -358,6 +402,30 @@ def _compare(ctx, sub, out, ref, system, rtol, what, order):
         tol = rtol * (1.0 + float(np.max(np.abs(ref[name]))))  # tolerance: rtol * (1 + |y|_inf)
         ctx.check(err <= tol, sub, f"{what}: {name}={got.tolist()} but the whole-system solve gives {ref[name].tolist()} (err {err:.3e} > {tol:.1e})",
                   order=order)
+
+
+def feasible_missing_defaults(real: Realisation, system, flags, order):
+    """(consumer, coupling input) pairs left without default such that the documented greedy initialisation succeeds.
+
+    Own simulation of 'run every discipline whose inputs are all available (defaults, given data, outputs of the
+    disciplines already run)'; while it gets stuck, a default is given back to the first stuck pair.
+    """
+    pairs = [(j, u) for j in range(real.n) for u in real.ins[j] if u in system.offset]
+    missing = {pair for k, pair in enumerate(pairs) if int(flags[k % len(flags)])}
+    while True:
+        available, done = set(real.external), set()
+        progress = True
+        while progress:
+            progress = False
+            for j in order:
+                if j not in done and all(u in available or (j, u) not in missing for u in real.ins[j]):
+                    done.add(j)
+                    available.update(real.outs[j])
+                    progress = True
+        if len(done) == real.n:
+            return missing
+        stuck = sorted(pair for pair in missing if pair[0] not in done and pair[1] not in available)
+        missing.discard(stuck[0])
 
 
 def case_composition(p, ctx):
@@ -378,7 +446,11 @@ def case_composition(p, ctx):
     dup = bool(p.get("dup"))
 
     # (a) MDAChain in the listing order
-    discs = system.disciplines(dup)
+    has_cycle = any(real.is_strong(i) for i in range(n))
+    missing = set()
+    if p.get("no_default") and p["init_defaults"] and has_cycle and n > 1 and not p.get("wrap"):
+        missing = feasible_missing_defaults(real, system, p["no_default"], order)
+    discs = system.disciplines(dup, no_default=missing)
     listed = [discs[i] for i in order]
     # optionally hand whole cycle groups / self-coupled nodes to MDAChain as ONE MDOChain node (a self-coupled process
     # discipline, alone in its group, which the MDA chain has to converge); the flat reference is unchanged
@@ -484,6 +556,10 @@ def case_composition(p, ctx):
         ctx.cls("comp_duplicated_names")
     if wrapped:
         ctx.cls("comp_cycle_group_wrapped_in_one_MDOChain_node")
+    if missing:
+        ctx.cls("comp_initialize_defaults_with_missing_defaults")
+        if any(real.is_strong(j) and not real.is_strong(real.producer[u]) for j, u in missing):
+            ctx.cls("comp_strong_discipline_without_default_for_a_weak_upstream_coupling")
     if extra:
         ctx.cls("comp_sub_coupling_structures_given")
         if len(set(mda_levels)) >= 2:
@@ -495,7 +571,120 @@ def case_composition(p, ctx):
     ctx.sample({"oracle": "composition", "case": p})
 
 
-ORACLES = {"graph": case_graph, "graph_random": case_graph, "composition": case_composition}
+# --------------------------------------------------------------------------- duplicated output names in a parallel chain
+POOL = ["y0", "y1", "y2"]
+
+
+@st.composite
+def shared_outputs(draw):
+    n = draw(st.integers(2, 4))
+    nx = draw(st.integers(1, 2))
+    return {
+        "members": [{"writes": draw(st.lists(st.integers(0, 2), min_size=1, max_size=2, unique=True)),
+                     "coef": draw(st.lists(st.sampled_from([-3, -2, -1, 1, 2, 3]), min_size=1, max_size=5))} for _ in range(n)],
+        "order": list(draw(st.permutations(list(range(n))))),
+        "sizes": draw(st.lists(st.integers(1, 2), min_size=3, max_size=3)),
+        "nx": nx, "x": draw(st.lists(st.integers(-4, 4), min_size=nx, max_size=nx)),
+        "consumer": draw(st.lists(st.sampled_from([-2, -1, 1, 2]), min_size=1, max_size=4)),
+        "threads": draw(st.sampled_from([1, 1, 2])),
+        "dup": draw(st.integers(0, 3)) == 0,
+    }
+
+
+def case_parallel_priority(p, ctx):
+    """Members of one MDOParallelChain computing variables of the same name: the member listed last prevails
+    (MDOParallelChain._execute: 'Update data according to input order of priority'), as in a sequential MDOChain."""
+    from gemseo.core.chains.chain import MDOChain
+    from gemseo.core.chains.parallel_chain import MDOParallelChain
+    from gemseo.core.discipline import Discipline
+
+    sizes = {name: int(p["sizes"][k]) for k, name in enumerate(POOL)}
+    nx = int(p["nx"])
+    x = np.array([v / 2.0 for v in p["x"]])
+    order = [int(v) for v in p["order"]]
+
+    def affine(k, name, coef):
+        m = np.zeros((sizes[name], nx))
+        c = np.zeros(sizes[name])
+        idx = k + POOL.index(name)
+        for a in range(m.shape[0]):
+            for b in range(nx):
+                m[a, b] = coef[idx % len(coef)]
+                idx += 1
+            c[a] = coef[idx % len(coef)] / 2.0 + k
+            idx += 1
+        return m, c
+
+    maps = {k: {POOL[w]: affine(k, POOL[w], mem["coef"]) for w in mem["writes"]} for k, mem in enumerate(p["members"])}
+    written = [name for name in POOL if any(name in maps[k] for k in maps)]
+    cons = {name: np.array([[p["consumer"][(i + a) % len(p["consumer"])] for a in range(sizes[name])]], dtype=float)
+            for i, name in enumerate(written)}
+
+    class _Member(Discipline):
+        default_grammar_type = Discipline.GrammarType.SIMPLE
+
+        def __init__(self, k):
+            super().__init__("D" if p["dup"] else f"D{k}")
+            self.k = k
+            self.io.input_grammar.update_from_names(["x"])
+            self.io.output_grammar.update_from_names(list(maps[k]))
+            self.io.input_grammar.defaults["x"] = np.zeros(nx)
+
+        def _run(self, input_data):
+            return {name: m @ np.asarray(input_data["x"], dtype=float) + c for name, (m, c) in maps[self.k].items()}
+
+    class _Consumer(Discipline):
+        default_grammar_type = Discipline.GrammarType.SIMPLE
+
+        def __init__(self):
+            super().__init__("consumer")
+            self.io.input_grammar.update_from_names(written)
+            self.io.output_grammar.update_from_names(["z"])
+            for name in written:
+                self.io.input_grammar.defaults[name] = np.zeros(sizes[name])
+
+        def _run(self, input_data):
+            return {"z": sum(cons[name] @ np.asarray(input_data[name], dtype=float) for name in written) + 1.0}
+
+    # reference: the whole system at once, the last listed writer of a name prevailing
+    ref = {}
+    for k in order:
+        for name, (m, c) in maps[k].items():
+            ref[name] = m @ x + c
+    ref["z"] = sum(cons[name] @ ref[name] for name in written) + 1.0
+
+    def compare(out, names, what):
+        for name in names:
+            ctx.check(name in out, "parallel_priority", f"{what}: {name} is missing", order=order)
+            got = np.asarray(out[name], dtype=float)
+            # tolerance: same affine arithmetic on both sides, 1e-12 * (1 + |ref|)
+            ctx.check(got.shape == ref[name].shape and float(np.max(np.abs(got - ref[name]))) <= 1e-12 * (1 + float(np.max(np.abs(ref[name])))),
+                      "parallel_priority", f"{what}: {name}={got.tolist()}, but the last listed discipline computing it gives {ref[name].tolist()}",
+                      order=order)
+
+    data = {"x": x.copy()}
+    out = MDOParallelChain([_Member(k) for k in order], n_processes=int(p["threads"])).execute(dict(data))
+    compare(out, written, "MDOParallelChain")
+    out = MDOChain([MDOParallelChain([_Member(k) for k in order], n_processes=int(p["threads"])), _Consumer()]).execute(dict(data))
+    compare(out, [*written, "z"], "MDOChain([MDOParallelChain, consumer])")
+    out = MDOChain([*[_Member(k) for k in order], _Consumer()]).execute(dict(data))
+    compare(out, [*written, "z"], "MDOChain(members, consumer)")
+
+    shared = [name for name in written if sum(name in maps[k] for k in maps) >= 2]
+    differ = [name for name in shared
+              if len({tuple((maps[k][name][0] @ x + maps[k][name][1]).tolist()) for k in maps if name in maps[k]}) >= 2]
+    ctx.cls(f"par_members={len(order)}")
+    if shared:
+        ctx.cls("par_name_with_>=2_writers")
+    if differ:
+        ctx.cls("par_NONTRIVIAL_writers_disagree")
+        ctx.nontriv(("par", p))
+    if order != sorted(order):
+        ctx.cls("par_permuted_listing")
+    ctx.sample({"oracle": "parallel_priority", "case": p})
+
+
+ORACLES = {"graph": case_graph, "graph_random": case_graph, "composition": case_composition, "parallel_priority": case_parallel_priority}
 
 
 def run(ctx):
@@ -508,3 +697,4 @@ def run(ctx):
     ctx.extra["exhaustive_n_eq_4"] = bool(done_4 and ctx.tier == "thorough" and not ctx.extra.get("exhaustive_interrupted"))
     ctx.drive("graph_random", random_graphs(), case_graph, quick=250, thorough=4000)
     ctx.drive("composition", systems(), case_composition, quick=250, thorough=2500)
+    ctx.drive("parallel_priority", shared_outputs(), case_parallel_priority, quick=120, thorough=1500)
